@@ -58,6 +58,10 @@ SCENARIOS = [
     ("doc-assign-vs-reader", "populated", [[["project"], ["docset", 1, "k", 1], ["docassign", 1, "k", 9]],
                                            [["project"], ["docread", 1], ["docread", 1]]]),
     ("doc-first-write-vs-read", "populated", [[["project"], ["docset", 1, "k", 1]], [["project"], ["docread", 1], ["docread", 1]]]),
+    # a handle made while the workspace existed (here: carried over by pickle) lists jobs while another process
+    # re-creates the missing workspace
+    ("stale-handle-lists-while-workspace-appears", "noworkspace",
+     [[["project_pickled"], ["len"], ["list"]], [["project"], ["init", 0]]]),
     ("three-init-same", "noworkspace", [[["project"], ["init", 0]], [["project"], ["init", 0]], [["project"], ["init", 0], ["list"]]]),
     ("three-mixed", "populated", [[["project"], ["init", 0], ["docset", 0, "k", 1]], [["project"], ["docset", 1, "k", 7]],
                                   [["project"], ["docread", 1], ["len"], ["docread", 0]]]),
@@ -85,6 +89,10 @@ def build_initial(root, initial):
         for sp in SP[1:]:
             p.open_job(sp).init()
     if initial == "noworkspace":
+        import pickle
+
+        with open(root + ".project.pkl", "wb") as f:
+            pickle.dump(signac.Project(root), f)
         shutil.rmtree(os.path.join(root, "workspace"), ignore_errors=True)
 
 
@@ -99,6 +107,12 @@ def make_script(ops, root):
             kind = op[0]
             if kind == "project":
                 p = signac.Project(root)
+                values.append(None)
+            elif kind == "project_pickled":
+                import pickle
+
+                with open(root + ".project.pkl", "rb") as f:
+                    p = pickle.load(f)
                 values.append(None)
             elif kind == "init_project":
                 p = signac.init_project(root)
